@@ -84,17 +84,18 @@ Theorem t2s_rule_sound : forall outer inner p r x w t w',
   t2s_rule outer inner (RRef p) = Some r -> rev x r = Some w ->
   rinv inner x = Some t -> rfun outer t = Some w' -> w = w'.
 Proof.
-  intros outer inner p r x w t w' Hr Hw Ht Hf. unfold t2s_rule in Hr.
+  intros outer inner p r x w t w' Hr Hw Ht Hf. unfold t2s_rule in Hr. cbv beta zeta in Hr.
   repeat match type of Hr with
-  | (if (?a =? ?b)%N && (?c =? ?d)%N then _ else _) = _ =>
-      destruct (N.eqb_spec a b) as [->|?]; [destruct (N.eqb_spec c d) as [->|?]|]; cbn [andb] in Hr
-  end; try discriminate; injection Hr as <-;
-  cbv [rinv rfun N.eqb Pos.eqb TC_Sin TC_Cos TC_Tan TC_Cot TC_Sec TC_Csc TC_ASin TC_ACos TC_ATan TC_ACot TC_ASec TC_ACsc] in Ht, Hf;
-  cbn [rev r_int] in Hw; cbn [robind] in Hw; inv_all; subst.
+  | context [(?a =? ?b)%N] => let E := fresh "E" in destruct (a =? b)%N eqn:E; cbn [andb] in Hr
+  end; try discriminate; injection Hr as <-.
+  all: repeat match goal with H : (_ =? _)%N = true |- _ => apply N.eqb_eq in H end; subst.
+  all: try match goal with H : ?x = ?y :> N |- _ => discriminate H end.
+  all: cbv [rinv rfun N.eqb Pos.eqb TC_Sin TC_Cos TC_Tan TC_Cot TC_Sec TC_Csc TC_ASin TC_ACos TC_ATan TC_ACot TC_ASec TC_ACsc] in Ht, Hf;
+    cbn [rev r_int] in Hw; cbn [robind] in Hw; inv_all; subst.
   all: try (destruct (sc_asin _ ltac:(eassumption)) as [Es Ec]; rewrite ?Es, ?Ec in * ).
-  all: try (destruct (sc_acos _ ltac:(eassumption)) as [Es Ec]; rewrite ?Es, ?Ec in * ).
+  all: try (destruct (sc_acos _ ltac:(eassumption)) as [Es2 Ec2]; rewrite ?Es2, ?Ec2 in * ).
   all: try (match goal with |- context [atan ?u] => destruct (sc_atan u) as (Es & Ec & Hpos); rewrite ?Es, ?Ec in * end).
   all: rewrite ?inv_sq in * by assumption.
   all: try (field; repeat split; try assumption; try lra).
-  all: idtac. Show.
+
 Qed.
